@@ -69,7 +69,7 @@ def aligned_ok(regs, kinds):
 
 def kinds_of(shape):
     d = shape_descs()[shape].split()[3:]
-    return [t for t in d if t in "zbslh"]
+    return [t for t in d if t in "zbslhp"]
 
 
 CALLBACK_WRITES = ("retain_mut",)
@@ -403,9 +403,11 @@ def still_fails(prop, sc, prof, monitors, key):
     except BuildError:
         return False
     pairs = pair_lines(impl[0])
+    from .decide import match_known
+    findings = load_findings()
     for mon in monitors:
         for f in mon(sc, prof, pairs):
-            if f.key.split(":")[0] == key.split(":")[0] and f.key.split(":")[-1] == key.split(":")[-1]:
+            if f.key == key and not match_known(f, findings, key.split(":")[0]):
                 return f
     return None
 
